@@ -41,10 +41,10 @@ def install(E):
     common = {'ext': 'sem', 'list_kind': 'fseq', 'may_raise': ('TypeError',),
               # heap-shape obligations do not need the formula axioms
               'slice_heavy': r'^(loop\d:(?!elements)|call:[^:]+:requires:(kripke_wf|no_None_state|wf)|ensures:(wf|same_|only_states|fresh)|raises:)',
-              'modelcheck_contracts': {'CTL': 'CTL.modelcheck(any object)', 'LTL': 'LTL.modelcheck'}}
+              'modelcheck_contracts': {'CTL': 'CTL.modelcheck(any object)', 'LTL': 'LTL.modelcheck'}, 'format_is_H': True}
 
     def facts(c):
-        return [('documented_semantics', z3.And(fs.axioms() + fs.object_axioms() + fs.lnot_contract_facts() + fs.lnot_keeps_objects()))]
+        return [('documented_semantics', z3.And(fs.axioms() + fs.object_axioms() + fs.lnot_contract_facts() + fs.lnot_keeps_objects() + fs.nonfair_keeps_objects()))]
 
     # -- CTL.modelcheck as the CTL* reduction calls it: any formula object, frame and safety only ----------
     def any_ens(c):
@@ -101,11 +101,11 @@ def install(E):
             + [('since_entry:' + n_, f_) for n_, f_ in frame(c.h0, h, c.h0.alloc, {'sets': lambda r: is_label_set(c.h0, k, r)})]
 
     E.register(Contract(
-        '_remove_state_subformulas', 'ctls', [('kripke', 'kripke'), ('formula', 'F'), ('fair_label', 'none')], ret='F',
+        '_remove_state_subformulas', 'ctls', [('kripke', 'kripke'), ('formula', 'F'), ('fair_label', 'Hopt')], ret='F',
         requires=rs_req, ensures=rs_ens, frame=labels_frame, may_write=labels_may_write, raise_unchanged=False,
         loops={1: rs_l1, 2: rs_l2}, loop_touches={1: {'sets'}, 2: TOUCH}, touches=TOUCH,
         hints=dict(common, raise_keeps=lambda c: []), owner='C03',
-        note='frame and safety only; fair_label=None'), FILE)
+        note='frame and safety only; with or without a fairness label'), FILE)
 
     # -- _checkQuantifiedFormula ----------------------------------------------------------------------------
     def cq_req(c):
@@ -121,9 +121,16 @@ def install(E):
             ('fresh', z3.And(c.res.t >= c.h0.alloc, c.res.t < c.h1.alloc))]
 
     E.register(Contract(
-        '_checkQuantifiedFormula', 'ctls', [('kripke', 'kripke'), ('formula', 'F'), ('fair_label', 'none')], ret='set',
+        '_checkQuantifiedFormula', 'ctls', [('kripke', 'kripke'), ('formula', 'F'), ('fair_label', 'Hopt')], ret='set',
         requires=cq_req, ensures=cq_ens, frame=labels_frame, may_write=labels_may_write, raise_unchanged=False,
-        touches=TOUCH, hints=dict(common), owner='C03', note='frame and safety only; fair_label=None'), FILE)
+        touches=TOUCH, hints=dict(common), owner='C03', note='frame and safety only; with or without a fairness label'), FILE)
+
+    def mc_req(c):
+        out = rs_req(c)
+        r = z3.Int('r!mc')
+        if c.F.ty == 'opt':
+            out.append(('constraints_are_sets', z3.ForAll([r], z3.Implies(z3.And(z3.Not(c.F.x[0]), c.F.x[1].x.mem[r]), z3.And(r >= 0, r < c.h0.alloc)))))
+        return out
 
     # -- CTLS.modelcheck (object formula, F=None) -------------------------------------------------------------
     def mc_ens(c):
@@ -133,9 +140,9 @@ def install(E):
                 ('fresh', z3.And(c.res.t >= c.h0.alloc, c.res.t < c.h1.alloc))]
 
     E.register(Contract(
-        'CTLS.modelcheck', 'ctls', [('kripke', 'kripke'), ('formula', 'F'), ('parser', 'none'), ('F', 'none')], ret='set',
-        requires=rs_req, ensures=mc_ens, touches={'sets', 'fd', 'fv', 'fs_len', 'fs_el', 'dd', 'dv', 'rels', 'fld__next', 'fld__labels', 'fld_S0'},
+        'CTLS.modelcheck', 'ctls', [('kripke', 'kripke'), ('formula', 'F'), ('parser', 'none'), ('F', 'opt:iterRefSets')], ret='set',
+        requires=mc_req, ensures=mc_ens, touches={'sets', 'fd', 'fv', 'fs_len', 'fs_el', 'dd', 'dv', 'rels', 'fld__next', 'fld__labels', 'fld_S0'},
         hints=dict(common, path='modelcheck'), owner='C03',
-        note='object formula, F=None: nothing that existed before the call is written (also when TypeError is raised); '
+        note='object formula, F=None or a container of sets: nothing that existed before the call is written (also when TypeError is raised); '
              'the result is a new set of states of the caller\'s structure'), FILE)
     return ['_remove_state_subformulas', '_checkQuantifiedFormula', 'CTLS.modelcheck']
